@@ -6,6 +6,11 @@ From ASV.C04 Require Model.
 From ASV.C07 Require Model.
 From ASV.C14 Require Model.
 From ASV.C15 Require Model.
+From ASV.C05 Require Model.
+From ASV.C13 Require Model.
+From ASV.C16 Require Model.
+From ASV.C20 Require Model.
+From ASV.C09 Require Model.
 
 Definition run (l : list Z) : list Z :=
   match l with
@@ -17,6 +22,11 @@ Definition run (l : list Z) : list Z :=
     | 7 => C07.Model.run_C07 fn payload
     | 14 => C14.Model.run_C14 fn payload
     | 15 => C15.Model.run_C15 fn payload
+    | 5 => C05.Model.run_C05 fn payload
+    | 13 => C13.Model.run_C13 fn payload
+    | 16 => C16.Model.run_C16 fn payload
+    | 20 => C20.Model.run_C20 fn payload
+    | 9 => C09.Model.run_C09 fn payload
     | _ => bad_input
     end
   | _ => bad_input
